@@ -34,7 +34,7 @@ CONFIG = {
 def floors(tier):
     return {"div_requests": 3000 if tier == "quick" else 40000, "div_accepted": 800, "div_refused_uncoverable": 800,
             "count_requests": 150, "interp_route": 20, "tomore_route": 10, "tofewer_route": 20, "align_checks": 20,
-            "size_requests": 4, "freq_requests": 4, "nontrivial": 500}
+            "size_requests": 30, "freq_requests": 4, "nontrivial": 500}
 
 
 def divvecs(vals):
@@ -60,8 +60,9 @@ def cases(tier, seed):
     for ik in ("int", "float", "dt", "str", "unknown", "int_dup"):
         for n_in in range(1, nmax + 1):
             yield {"kind": "count", "index": ik, "n_in": n_in, "nmax": nmax, "seed": seed}
-    for i in range(6 if tier == "quick" else 40):
+    for i in range(48 if tier == "quick" else 400):
         yield {"kind": "size", "i": i, "seed": seed}
+    for i in range(6 if tier == "quick" else 40):
         yield {"kind": "freq", "i": i, "seed": seed}
     for i in range(40 if tier == "quick" else 600):
         yield {"kind": "align", "i": i, "seed": seed}
@@ -271,8 +272,19 @@ def run_size(case):
     n = rng.choice([40, 200, 1000])
     pdf = mk_indexed(rng.choice(["int", "dt", "str", "int_dup"]), n, rng)
     n_in = rng.randrange(1, 8)
-    src = dx.from_pandas(pdf, npartitions=n_in)
-    size = rng.choice([200, 1000, 4000, 20000, "1kiB", "100kiB"])
+    if rng.random() < 0.6:
+        # uneven partitions (big / small / big ...): some are split, some pass through, some are merged
+        from vmon import layouts
+
+        k = rng.randrange(2, 6)
+        cuts = sorted(rng.sample(range(1, n), k - 1))
+        if rng.random() < 0.5:
+            cuts = sorted(set(cuts + [max(1, cuts[0] - rng.randrange(0, 3)), min(n - 1, cuts[-1] + rng.randrange(0, 3))]))
+        src = layouts.build(pdf, {"kind": "cuts", "cuts": cuts, "via": "from_map", "divisions": rng.choice(["known", "unknown"]) if pdf.index.is_unique else "unknown"})
+        n_in = src.npartitions
+    else:
+        src = dx.from_pandas(pdf, npartitions=n_in)
+    size = rng.choice([200, 1000, 4000, 20000, "1kiB", "100kiB", 500, 2500])
     counters = {"size_requests": 1}
     try:
         r = src.repartition(partition_size=size)
